@@ -140,6 +140,11 @@ def run(tier, rep, salt=0):
             new_dirs = [x[0] for x in ro['tree'] if x[1] == 'dir' and (b.get(x[0]) or [None, None])[1] != 'dir']
             if new_dirs:
                 problems.append({'what': '_make_dirs failed and left directories behind', 'oracle': True, 'left': new_dirs, 'case': c})
+        # C03: whatever happens, a directory that was there before is there afterwards
+        a_ = {x[0]: x for x in ro['tree']}
+        lost = [x[0] for x in ro['before'] if x[1] == 'dir' and x[0] not in a_]
+        if lost:
+            problems.append({'what': '_make_dirs removed directories that existed before the call', 'oracle': True, 'foreign': True, 'lost': lost, 'case': c})
         got = {'outcome': ro['outcome'], 'tree': ro['tree'], 'saved': ro['saved']}
         exp = {'outcome': mo['outcome'], 'tree': mo['tree'], 'saved': mo['saved']}
         if got != exp:
